@@ -59,6 +59,9 @@ impl Ctx {
                 }
                 Outcome::Died(d) => {
                     let k = classify_death(d);
+                    if std::env::var("C06_VERBOSE").is_ok() && c.group.starts_with("program") {
+                        eprintln!("[c06] died ({}): {:?}", k, c.text.chars().take(160).collect::<String>());
+                    }
                     let cnt = self.deaths.entry(k.to_string()).or_insert(0);
                     *cnt += 1;
                     if *cnt <= 3 {
